@@ -966,6 +966,9 @@ func mpNote(op string) string {
 		return "protoset-laws"
 	}
 	if len(t) >= 3 && t[1] == "Q" {
+		if strings.HasPrefix(t[2], "synth-multi") {
+			return "synth-family:several-optional-fields"
+		}
 		if strings.HasPrefix(t[2], "synth:") {
 			// synth:<F>:<kind>=<name>[:<kind>=<name>] -> family + kinds
 			p := strings.Split(t[2], ":")
